@@ -288,7 +288,10 @@ pub fn run_handles(run: u64, seed: u64) -> RunOut {
                             if vals[val].taken {
                                 bad.push(("C20:handle-use-after-take".into(), format!("a handle of v{val} resolved after the value was taken")));
                             }
-                            out.item("resolved_lineages", format!("{lineage:?}/{}", if hd.trail.is_empty() { "same-way-back" } else { "other-way" }));
+                            out.item("resolved_lineages", format!("{lineage:?}/{}", if hd.trail.is_empty() { "trail-cancels-out" } else { "trail-does-not-cancel" }));
+                            if !hd.trail.is_empty() && std::env::var("HARNESS_DEBUG").is_ok() {
+                                eprintln!("c20: resolved other-way v{val} node {node} trail {:?} links {:?}\n  {}", hd.trail, links.iter().map(|l| l.ends).collect::<Vec<_>>(), oplog.join("\n  "));
+                            }
                         }
                         Some(Err(e)) => {
                             if node == vals[val].home && lineage == Lineage::Native && !vals[val].taken {
@@ -299,7 +302,7 @@ pub fn run_handles(run: u64, seed: u64) -> RunOut {
                             } else if vals[val].taken {
                                 stats.3 += 1;
                             } else if lineage == Lineage::Travelled {
-                                out.item("home_refusals", format!("{}{}", if hd.trail.is_empty() { "same-way-back" } else { "other-way" }, if vals[val].provider_dropped { "/provider-dropped" } else { "" }));
+                                out.item("home_refusals", format!("{}{}", if hd.trail.is_empty() { "trail-cancels-out" } else { "trail-does-not-cancel" }, if vals[val].provider_dropped { "/provider-dropped" } else { "" }));
                             }
                         }
                         None => bad.push(("C20:handle-use-pending".into(), "a handle access is pending at quiescence".into())),
